@@ -109,7 +109,7 @@ for line in sys.stdin:
 def explore(ctx):
     rng = random.Random(ctx.seed * 6007 + 15)
     quick = ctx.tier == "quick"
-    proofs_ok = ctx.lean_props("C15All", extra_modules=["Ecpint.Props.C15", "Ecpint.Props.C15b"])
+    proofs_ok = ctx.lean_props("C15All", extra_modules=["Ecpint.Props.C15", "Ecpint.Props.C15b", "Ecpint.Props.C15c"])
     b = build.build("plain")
     drv = build.compile_driver(b, "corr_quad.cpp")
     cases = gen_cases(rng, quick)
